@@ -119,7 +119,8 @@ type Ctx struct {
 
 // Fail records a violation (first one wins).
 func (c *Ctx) Fail(oracle, sig, format string, a ...any) {
-	if c.failed {
+	if c.failed || c.res.Outcome == "inconclusive" || c.res.Outcome == "diverged" {
+		// a run cut short by a cap is never judged: its state is partial
 		return
 	}
 	c.failed = true
